@@ -110,12 +110,18 @@ def element_counts(g):
     return collections.Counter(d['z'] for _, d in g.nodes(data=True))
 
 
-def check_rule(ctx, ast, rng):
+def check_rule(ctx, ast, rng, text=None, only=None):
     from pgradd.RINGParser import Read
-    text = X.render_rule(ast, rng)
+    text = text or X.render_rule(ast, rng)
     bal = X.balance(ast)
     balanced = all(b == 0 for b in bal)
-    case = {'rule': text, 'template': ast['desc'], 'kind': ast['kind']}
+    case = {'rule': text, 'template': ast['desc'], 'kind': ast['kind'],
+            'ast': {'atoms': [[a['type']['symbol'], a['type']['suffix']]
+                              for a in ast['reactant']['atoms']],
+                    'bonds': [list(b) for b in ast['reactant']['bonds']],
+                    'edits': [list(e) for e in ast['edits']],
+                    'name': ast['name'],
+                    'rname': ast['reactant']['name']}}
     o = observe(Read, text)
     ctx.evals()
     charge = X.has_charge_edit(ast)
@@ -156,6 +162,9 @@ def check_rule(ctx, ast, rng):
     mols = rng.sample(pool, min(len(pool), 14 if ctx.tier == 'quick' else 40))
     if charge:
         mols = mols[:8] + charged_pool()
+    if only:
+        m_ = Chem.MolFromSmiles(only)
+        mols = [(only, m_, R.Facts(Chem.AddHs(m_)))]
     for smi, mol, facts in mols:
         embs, _ = R.search(ast['reactant'], facts)
         c = dict(case, smiles=smi)
@@ -255,7 +264,17 @@ def replay(ctx, case):
         prods = o['ok'].RunReactants(Chem.MolFromSmiles(case['smiles']))
         print('products:', [[Chem.MolToSmiles(p) for p in ps]
                             for ps in prods])
-    # full semantic replay needs the AST: regenerate by template name
+    if 'ast' in case:
+        a = case['ast']
+        ast = {'name': a['name'], 'desc': case.get('template', ''),
+               'kind': case.get('kind', 'balanced'),
+               'reactant': X.frag([tuple(x) for x in a['atoms']],
+                                  [tuple(b) for b in a['bonds']], a['rname']),
+               'edits': [tuple(e) for e in a['edits']]}
+        check_rule(ctx, ast, ctx.rng, text=case['rule'],
+                   only=case.get('smiles'))
+        return
+    # older replay files: regenerate by template name
     for desc, atoms, bonds, edits in X.templates() + \
             X.systematic_templates() + X.charge_templates():
         if desc == case.get('template') and case.get('kind') in (
